@@ -22,6 +22,7 @@ CONSTANTS
   KeepRights = {TRUE, FALSE}
   Scrollbars <- MCScrollbars
   Borders = {TRUE, FALSE}
+  Tabstops = {8}
   Patterns <- MCPatternsNone
   Acts = {}
 INIT GenInitH
